@@ -84,7 +84,7 @@ theorem replaceInline_ni (text : Str) (e : Expand) : NI (replaceInline rec env t
   have hm := macrosRender_ni rec env hs
   unfold replaceInline; ni_go
 
-theorem replaceGroupText_ni (g : Str) (sp : Bool) (e : Expand) : NI (replaceGroupText rec env g sp e) := by
+theorem replaceGroupText_ni (g : Str) (sp : Bool) (e : Expand) (ia : Bool) : NI (replaceGroupText rec env g sp e ia) := by
   have hr := replaceInline_ni rec env hs
   unfold replaceGroupText; ni_go
 
